@@ -1,4 +1,5 @@
 import Adlt.Lc.Spec
+import Adlt.Lc.Listing
 import Adlt.Util.Parse
 /-! Line-protocol glue for the lifecycle model: `case \t implobs` -> `modelobs \t oracle(impl) \t oracle(model) \t branches`. -/
 namespace Lcm
@@ -27,8 +28,15 @@ def canonObs (ms : List Msg) (o : Obs) : String :=
 def poison (i : Nat) : Msg := { index := i, recv := 0, ecu := 0, tsDms := 0, hasTs := false, ctrlReq := false, lc := 1 }
 
 /-- rebuild an `Obs` from the implementation's canonical text -/
+def parseListing (c : String) : Option (List (Nat × LcE)) :=
+  if c.trimAscii.toString == "PANIC" then none else
+  some ((fields c " ").map fun f =>
+    match (f.splitOn ",").map nat! with
+    | [k, st, r, rel] => (k, ({ id := rel, start := st, resume := if r == 0 then none else some r } : LcE))
+    | _ => (0, { id := 0, start := 0, resume := none }))
+
 def parseObs (ms : List Msg) (s : String) : Option Obs :=
-  match s.splitOn " | " with
+  match (s.splitOn " | ").take 2 with
   | [a, b] =>
     let outs := (fields a " ").map fun f =>
       match (f.splitOn ":").map nat! with
@@ -43,13 +51,28 @@ def parseObs (ms : List Msg) (s : String) : Option Obs :=
     some { out := outs, tbl := tbl }
   | _ => none
 
-def oracle (ms : List Msg) (o : Obs) : String :=
+def listingOracle (o : Obs) (L : Option (List (Nat × LcE))) : String :=
+  match L with
+  | none => "FAIL:listing-panics"
+  | some KL =>
+    let L := KL.map (·.2)
+    if !Spec.listOnce (o.tbl.map (·.id)) (KL.map fun (k, e) => { e with id := k }) then "FAIL:listing-not-each-once"
+    else if !Spec.resumeAfterOrigin L then "FAIL:listing-resumed-before-origin"
+    else if !Spec.sortedIfNoResume L then "FAIL:listing-not-sorted-by-start"
+    else if !Spec.resumeIdsIncrease L then "FAIL:resume-origin-id-not-smaller"
+    else if (listing L).map (·.id) != L.map (·.id) then "FAIL:listing-differs-from-model-sort"
+    else "ok"
+
+def oracle (ms : List Msg) (o : Obs) (L : Option (Option (List (Nat × LcE))) := none) : String :=
   let c05 := if !Spec.C05order ms o then "FAIL:order" else if !Spec.C05nonzero o then "FAIL:zero-id"
              else if !Spec.C06 o then "FAIL:foreign-or-unpublished-id" else "ok"
   let c06 := if Spec.C06 o then "ok" else "FAIL:unpublished-at-delivery"
   let c07 := if !Spec.C07listedOnce o then "FAIL:listed-twice" else if !Spec.C07covers o then "FAIL:delivered-id-not-listed"
              else if !Spec.C07exact o then "FAIL:count-mismatch" else if !Spec.C07ecu o then "FAIL:ecu-mismatch"
-             else if !Spec.C07referenced o then "FAIL:phantom-entry" else if !Spec.C07sum o then "FAIL:sum" else "ok"
+             else if !Spec.C07referenced o then "FAIL:phantom-entry" else if !Spec.C07sum o then "FAIL:sum"
+             else match L with
+               | none => "ok"
+               | some L => listingOracle o L
   s!"C05={c05};C06={c06};C07={c07}"
 
 /-- coarse branch coverage of a model run (for generator-quality evidence) -/
@@ -77,7 +100,7 @@ def doLine (line : String) : String :=
   let mobs := if s.panicked then "PANIC" else canonObs ms (observe s)
   let oi := if impl == "" then "-" else if impl == "PANIC" then "C05=PANIC;C06=PANIC;C07=PANIC" else
     match parseObs ms impl with
-    | some o => oracle ms o
+    | some o => oracle ms o (some (parseListing (((impl.splitOn " | ").drop 2).headD "")))
     | none => "C05=FAIL:unparsable;C06=FAIL:unparsable;C07=FAIL:unparsable"
   let om := if s.panicked then "C05=PANIC;C06=PANIC;C07=PANIC" else oracle ms (observe s)
   s!"{mobs}\t{oi}\t{om}\t{branches ms s}"
